@@ -121,6 +121,14 @@ def ref_fields(stack, pkt, st):
         n = 40 if '6' in stack else 20
         c, pl = ref_coap(st)
         return ip + ref_udp(pkt[n:]) + c, pl
+    if 'raw' in st and 'sctp' in st:
+        # UDP to the port by which the library designates its SCTP parser (132): SCTP fields follow, no payload
+        s_, pl = ref_sctp(st['sctp'])
+        if stack in ('IPv6', 'IPv4'):
+            ip = ref_ipv6(pkt) if '6' in stack else ref_ipv4(pkt)
+            n = 40 if '6' in stack else 20
+            return ip + ref_udp(pkt[n:]) + s_, pl
+        return ref_udp(pkt) + s_, pl
     if 'raw' in st:
         # UDP to a port that designates no next parser: the rest is payload
         if stack in ('IPv6', 'IPv4'):
